@@ -1,6 +1,7 @@
 package main
 
 import (
+	"time"
 	"bytes"
 	"crypto/elliptic"
 	"crypto/sha512"
@@ -31,6 +32,84 @@ func (c *memCache) Get(id string) (*type3.ClientState, bool) {
 func (c *memCache) Put(id string, s *type3.ClientState) {
 	c.puts = append(c.puts, id)
 	c.m[id] = s
+}
+
+// gateCache is a thread-safe cache whose first Get for one chosen client parks until released: it pins one
+// interleaving of two overlapping attester calls deterministically.
+type gateCache struct {
+	mu               sync.Mutex
+	m                map[string]*type3.ClientState
+	gate             string
+	once             sync.Once
+	entered, release chan struct{}
+}
+
+func (c *gateCache) Get(id string) (*type3.ClientState, bool) {
+	if id == c.gate {
+		c.once.Do(func() { close(c.entered); <-c.release })
+	}
+	c.mu.Lock()
+	defer c.mu.Unlock()
+	s, ok := c.m[id]
+	return s, ok
+}
+
+func (c *gateCache) Put(id string, s *type3.ClientState) {
+	c.mu.Lock()
+	defer c.mu.Unlock()
+	c.m[id] = s
+}
+
+// c09Overlap: VerifyRequest for client X is parked inside its cache lookup while client Y is verified and bound;
+// afterwards each client's bindings are its own.
+func c09Overlap(w *c09World, bindBeforeRelease bool) string {
+	X, Y := w.clients[0], w.clients[1]
+	gc := &gateCache{m: map[string]*type3.ClientState{}, gate: hex.EncodeToString(X.pubEnc), entered: make(chan struct{}), release: make(chan struct{})}
+	att := type3.NewRateLimitedAttester(gc)
+	done := make(chan error, 1)
+	go func() { done <- att.VerifyRequest(X.request, X.blind, X.pubEnc, w.anons[1]) }()
+	select {
+	case <-gc.entered:
+	case <-time.After(20 * time.Second):
+		return "the parked call never reached the cache"
+	}
+	fin := func(c *t3Client, ci, k, a int) error {
+		_, err := att.FinalizeIndex(c.pubEnc, c.blind, w.blinded[[2]int{ci, k}], w.anons[a])
+		return err
+	}
+	if err := att.VerifyRequest(Y.request, Y.blind, Y.pubEnc, w.anons[1]); err != nil {
+		return "the overlapping honest request was refused"
+	}
+	var e1 error
+	if bindBeforeRelease {
+		e1 = fin(Y, 1, 0, 1)
+	}
+	close(gc.release)
+	if err := <-done; err != nil {
+		return "the parked honest request was refused"
+	}
+	if !bindBeforeRelease {
+		e1 = fin(Y, 1, 0, 1)
+	}
+	if e1 != nil {
+		return "a first binding was refused"
+	}
+	if err := att.VerifyRequest(Y.request, Y.blind, Y.pubEnc, w.anons[1]); err != nil {
+		return "a repeated honest request was refused"
+	}
+	if fin(Y, 1, 0, 3) == nil {
+		return "after two overlapping VerifyRequest calls, a second anonymous origin ID was accepted for an index of the other client"
+	}
+	if fin(Y, 1, 0, 1) != nil {
+		return "after two overlapping VerifyRequest calls, the accepted pair of the other client is refused"
+	}
+	if fin(X, 0, 0, 3) != nil {
+		return "after two overlapping VerifyRequest calls, the parked client's first binding is refused"
+	}
+	if fin(X, 0, 0, 1) == nil {
+		return "after two overlapping VerifyRequest calls, a second anonymous origin ID was accepted for an index of the parked client"
+	}
+	return "-"
 }
 
 func t3ctx(label string) []byte {
@@ -391,6 +470,11 @@ func runC09(c *Ctx) {
 
 	// random longer histories over a bigger world: 4 clients, 4 keys (5 origins), 4 anon IDs
 	w2 := newC09World(r, 4, 4, 4)
+	for k := 0; k < c.Pick(3, 20); k++ {
+		out := c.Op(fmt.Sprintf("c03.probe c09.overlap %d", k), func() string { return c09Overlap(w2, k%2 == 0) })
+		c.Count("overlap")
+		c.Direct(out == "-", "overlapping attester calls: "+out, map[string]any{"round": k})
+	}
 	n := c.Pick(1500, 40000)
 	var rh [][]c09Step
 	for i := 0; i < n; i++ {
